@@ -156,7 +156,7 @@ var nameAlphabet = []string{"a", "b", "data", "x y", "dots..", ".hidden", "ünï
 func genName(r *Rand, i int) string {
 	switch r.Intn(12) {
 	case 0:
-		return strings.Repeat("L", 255)
+		return strings.Repeat("L", 250) + fmt.Sprintf("%05d", i)
 	case 1:
 		return fmt.Sprintf("%s%d", strings.Repeat("m", r.Range(30, 120)), i)
 	}
